@@ -362,8 +362,8 @@ def gen_cases(rng, tier):
         exprs += un_all
         n_pairs, n_rand = 60000, 60000
     else:
-        exprs += rng.sample(un_all, 900)
-        n_pairs, n_rand = 1800, 1500
+        exprs += rng.sample(un_all, 700)
+        n_pairs, n_rand = 1300, 1100
     for _ in range(n_pairs):
         op = rng.choice(sorted(set(BIN_W)))
         a = rng.choice(leaves) if rng.random() < 0.6 else rand_leaf(rng)
@@ -395,6 +395,15 @@ def make_case(cid, e):
             "model": ["evalf\t%s\t\t%s" % (cid, to_model(e))]}
 
 
+def probe_case():
+    """C02-2 on a fresh machine: once -0.0 is the first zero stored, the literal 0.0 reads as -0.0."""
+    return {"id": "zprobe", "expr": "( atan2 f:0000000000000000 f:bff0000000000000 )",
+            "prolog": "[fresh machine] X0 is -1.0 * 0.  then  X is atan2(0.0, -1.0).",
+            "impl": ["R\tzprobeR", "Q\tzprobe0\t2\tX0 is -1.0 * 0.",
+                     "Q\tzprobe\t2\tcatch(X is atan2(0.0, -1.0), error(Err,_), true).", "R\tzprobeR2"],
+            "model": ["evalf\tzprobe\t\t( atan2 f:0000000000000000 f:bff0000000000000 )"], "probe": "zero_sign"}
+
+
 def canon_impl(res):
     m = re.fullmatch(r"\{X=f\(([0-9a-f]{16})\)\}", res)
     if m:
@@ -412,7 +421,10 @@ def canon_impl(res):
     if m:
         return "err type_float " + m.group(1)
     if res.startswith("panic("):
-        return "panic"
+        # the debug assertion of Fixnum::build_with_unchecked / the todo!() of floor/1
+        if "should be in the range" in res or "not yet implemented" in res:
+            return "panic"
+        return "panic-other " + res[:200]
     return "other " + res
 
 
@@ -479,7 +491,8 @@ def run_pairs(cases):
 
 def transient(r):
     """results that only say the harness process was starved/killed under machine load"""
-    return r in ("timeout", "missing") or r.startswith(("abort(", "skipped("))
+    return r in ("timeout", "missing") or r.startswith(("abort(", "skipped(")) or (
+        r.startswith("panic(") and "should be in the range" not in r and "not yet implemented" not in r)
 
 
 def check_literals(exprs):
@@ -506,39 +519,57 @@ def check_literals(exprs):
     return bad, len(lits)
 
 
-def classify(e, rng_unused=None):
-    """find a minimal failing witness among the sub-expressions of `e` and `float(sub)`; returns
-    (class, witness_expr, impl, model)."""
+def zero_sign_only(iv, mv):
+    z = ("ok f 0000000000000000", "ok f 8000000000000000")
+    return iv in z and mv in z and iv != mv
+
+
+def classify_all(trees):
+    """for each failing expression find a minimal failing witness among its sub-expressions `s` and
+    `float(s)` (one batch for all). Returns a list of (class, witness_expr, impl, model, witness_case)."""
+    cand_ix = {}
     cands = []
-    seen = set()
-    for s in subtrees(e):
-        for c in ([s] if (isinstance(s, tuple) and s[0] == "float") else [s, ("float", s)]):
-            t = to_model(c)
-            if t not in seen:
-                seen.add(t)
-                cands.append(c)
-    cands.sort(key=size)
+    per_tree = []
+    for e in trees:
+        mine = []
+        for s in subtrees(e):
+            for c in ([s] if (isinstance(s, tuple) and s[0] == "float") else [s, ("float", s)]):
+                t = to_model(c)
+                if t not in cand_ix:
+                    cand_ix[t] = len(cands)
+                    cands.append(c)
+                if cand_ix[t] not in mine:
+                    mine.append(cand_ix[t])
+        mine.sort(key=lambda k: size(cands[k]))
+        per_tree.append(mine)
     cases = [make_case("w%d" % k, c) for k, c in enumerate(cands)]
     impl, model, _, _, _ = run_pairs(cases)
-    for c, ex in zip(cases, cands):
-        iv = canon_impl(impl.get(c["id"], "missing"))
-        mv = canon_model(model.get(c["id"], "missing"))
-        pv = canon_model(model.get("p" + c["id"], "missing"))
-        if iv == mv:
-            continue
-        cls = "op:" + (ex[0] if isinstance(ex, tuple) else "leaf")
-        if pv != mv and iv == pv:
-            cls = "rnd_i_fixnum_max"
-        elif mv == "ok f 8000000000000000" and iv == "ok f 0000000000000000":
-            cls = "negzero_result"
-        elif isinstance(ex, tuple) and ex[0] == "float" and mv.startswith(("ok f", "err float_overflow")):
-            inner = canon_model(model.get(cases[cands.index(ex[1])]["id"], "")) if ex[1] in cands else ""
-            if inner.startswith("ok i"):
-                cls = "int_to_f64"
-            elif inner.startswith("ok r"):
-                cls = "rat_to_f64"
-        return cls, ex, iv, mv, c
-    return "unreproducible", e, "", "", None
+    out = []
+    for e, mine in zip(trees, per_tree):
+        res = ("unreproducible", e, "", "", None)
+        for k in mine:
+            c, ex = cases[k], cands[k]
+            iv = canon_impl(impl.get(c["id"], "missing"))
+            mv = canon_model(model.get(c["id"], "missing"))
+            pv = canon_model(model.get("p" + c["id"], "missing"))
+            if iv == mv:
+                continue
+            cls = "op:" + (ex[0] if isinstance(ex, tuple) else "leaf")
+            if pv != mv and iv == pv:
+                cls = "rnd_i_fixnum_max"
+            elif zero_sign_only(iv, mv):
+                cls = "zero_sign"
+            elif isinstance(ex, tuple) and ex[0] == "float" and mv.startswith(("ok f", "err float_overflow")):
+                kk = cand_ix.get(to_model(ex[1]))
+                inner = canon_model(model.get(cases[kk]["id"], "")) if kk is not None else ""
+                if inner.startswith("ok i"):
+                    cls = "int_to_f64"
+                elif inner.startswith("ok r"):
+                    cls = "rat_to_f64"
+            res = (cls, ex, iv, mv, c)
+            break
+        out.append(res)
+    return out
 
 
 def run(ctx):
@@ -555,6 +586,7 @@ def run(ctx):
         literal_note = {"float_literals_checked": nlit, "float_literals_misread": [hex16(b) for b in sorted(bad)][:10]}
         if bad:
             exprs = [e for e in exprs if not any(is_f(x) and x[1] in bad for x in subtrees(e))]
+        cases.append(probe_case())
         k = len(cases)
         for e in exprs:
             c = make_case("a%d" % k, e)
@@ -585,37 +617,46 @@ def run(ctx):
             agree += 1
             continue
         mismatches.append((c, iv, mv, pv))
-    budget = 40
-    for c, iv, mv, pv in mismatches:
+    msamples = []
+    # one batch: minimal failing witnesses for the cases that are not explained by a known class already
+    need = [k for k, (c, iv, mv, pv) in enumerate(mismatches)
+            if not c.get("probe") and not (pv != mv and iv == pv) and not zero_sign_only(iv, mv)
+            and c.get("tree") is not None][:400]
+    witnesses = dict(zip(need, classify_all([mismatches[k][0]["tree"] for k in need]))) if need else {}
+    for k, (c, iv, mv, pv) in enumerate(mismatches):
         rop = c["expr"].split(" ")[1] if c["expr"].startswith("(") else "leaf"
-        case = {k: c[k] for k in ("id", "expr", "prolog", "impl", "model") if k in c}
+        case = {kk: c[kk] for kk in ("id", "expr", "prolog", "impl", "model") if kk in c}
         cls, wit = None, None
-        if pv != mv and iv == pv:
+        if c.get("probe"):
+            cls = c["probe"]
+        elif pv != mv and iv == pv:
             cls = "rnd_i_fixnum_max"
-        elif mv == "ok f 8000000000000000" and iv == "ok f 0000000000000000":
-            cls = "negzero_result"
-        elif c.get("tree") is not None and budget > 0:
-            budget -= 1
-            cls, w, wi, wm, wc = classify(c["tree"])
+        elif zero_sign_only(iv, mv):
+            cls = "zero_sign"
+        elif k in witnesses:
+            cls, w, wi, wm, wc = witnesses[k]
             if wc is not None:
                 wit = {"expr": to_model(w), "prolog": wc["prolog"], "impl": wi, "model": wm}
-                case = {k: wc[k] for k in ("id", "expr", "prolog", "impl", "model")}
+                case = {kk: wc[kk] for kk in ("id", "expr", "prolog", "impl", "model")}
         if cls is None:
             cls = "op:" + rop
         classes[cls] = classes.get(cls, 0) + 1
-        if cls in ("rnd_i_fixnum_max", "negzero_result", "int_to_f64", "rat_to_f64"):
+        if len(msamples) < 80:
+            msamples.append({"class": cls, "prolog": (wit or c).get("prolog"), "impl": (wit or {"impl": iv})["impl"],
+                             "model": (wit or {"model": mv})["model"], "from": c.get("prolog")})
+        if cls in ("rnd_i_fixnum_max", "zero_sign", "int_to_f64", "rat_to_f64"):
             sig = {"family": "arithf", "class": cls}
         else:
             sig = {"family": "arithf", "class": cls, "expr": (wit or c)["expr"], "impl": (wit or {"impl": iv})["impl"],
                    "model": (wit or {"model": mv})["model"]}
         detail = {
             "rnd_i_fixnum_max": "floor/ceiling/truncate/round of a float whose integral value is 2^55: rnd_i's range test accepts it (Fixnum::MAX as f64 == 2^55) and builds an out-of-range fixnum unchecked (notes/findings/C02-1.md)",
-            "negzero_result": "a float result -0.0 is stored as +0.0 (F64 table interning by OrderedFloat equality) (notes/findings/C02-2.md)",
+            "zero_sign": "the sign of a float zero is lost: the float table interns by OrderedFloat equality, so whichever of +0.0/-0.0 a machine stores first replaces the other from then on (notes/findings/C02-2.md)",
             "int_to_f64": "integer -> float conversion is not correctly rounded (dashu IBig::to_f64, see notes/findings/C04-1.md)",
             "rat_to_f64": "rational -> float conversion is not correctly rounded (dashu RBig::to_f64, see notes/findings/C04-2.md)",
         }.get(cls, "implementation result differs from the IEEE-754/ISO reference value computed by the model")
         # the model's value is the proved reference (exactly rounded result / error table): oracle broken
-        kind = "violation" if not iv.startswith(("other", "missing")) or cls != "op:" + rop else "disagreement"
+        kind = "disagreement" if iv.startswith(("other", "missing", "panic-other")) else "violation"
         if wit:
             case["witness_of"] = c.get("prolog")
         findings.append(core.Finding(kind, sig, detail, case))
@@ -629,6 +670,7 @@ def run(ctx):
         "result_kinds": kinds,
         "root_ops": root_ops,
         "mismatch_classes": classes,
+        "mismatch_samples": msamples,
         "libm_values_supplied": calls,
         "retried": retried,
         "exhaustive": False,
